@@ -318,8 +318,19 @@ def _mentioned_keys(test):
 
 
 def _kills(stmts, keys):
-    """does any statement in stmts (recursively) store to something in keys?"""
+    """does any statement in stmts (recursively) store to something in keys?
+    A method call on a receiver other than `self` is taken to modify that
+    receiver's attributes (x.m() kills facts about x.attr); calls on `self`
+    are assumed not to change what the guards of the same function test."""
     for st in stmts:
+        for n in ast.walk(st):
+            if isinstance(n, ast.Call) and isinstance(n.func, ast.Attribute):
+                recv = n.func.value
+                if isinstance(recv, ast.Name) and recv.id != "self":
+                    pre = recv.id + "."
+                    for key in keys:
+                        if key.startswith(pre):
+                            return True
         for tgt, _ in stores_in(st):
             k = norm(tgt)
             if k in keys:
